@@ -28,7 +28,7 @@ func init() {
 			{Name: "eventlog codecs (Unmarshal/Marshal), SP800155Event3", Kind: "real"},
 			{Name: "reader / writer arguments", Kind: "stub", Note: "SimReader, SimWriter"},
 		},
-		Budget: core.StdBudget(1200, 100*time.Second, 150000, 25*time.Minute),
+		Budget: core.StdBudget(1200, 100*time.Second, 150000, 9*time.Minute),
 		Body:   runC18,
 	})
 }
